@@ -146,7 +146,7 @@ class ConfigList(ComposedNode, list):
         if isinstance(other, dict) and other.ayns.delete:
             # a deleting mapping - "!del {..}", a function node - replaces the list like any other deleting node,
             # unless something in the list outranks it and stays: then its keys can only be positions again
-            replaces = not any(node.ayns.has_priority_over(other) for node in self.ayns.nodes(include_self=False))
+            replaces = other.ayns.has_priority_over(self, if_equal=True) and not any(node.ayns.has_priority_over(other) for node in self.ayns.nodes(include_self=False))
 
         if isinstance(other, dict) and not replaces:
             # (the keys of a mapping which merges into the list have to name existing elements)
